@@ -11,6 +11,7 @@ import numpy as np
 
 import common as C
 import fuzzylite as fl
+import gen_engines as GE
 
 PID = "C07"
 MODULES = ["FlVerif.Props.C07"]
@@ -23,7 +24,10 @@ RULE = ("consequents with 1-3 conclusions over the outputs o1..o3 (two terms eac
         "scalars {0, 1/4, 0.3, 1/2, 3/4, 1, NaN, +-inf, -0.5, 1.5} and batches of 3-4 of them; two paths: Rule.trigger with the "
         "degree set directly, and RuleBlock.activate (General) over a Ramp input so that weight x antecedent runs.  All single "
         "conclusions are enumerated; 2-3 conclusions are sampled with all their permutations.  non-trivial: at least one "
-        "activation with a stored degree different from 0 and 1; distinct = distinct (consequent, flags, degree)")
+        "activation with a stored degree different from 0 and 1; distinct = distinct (consequent, flags, degree).  Family "
+        "`kinds`: the concluded terms are of every registered term class (Constant, Linear, Function, Discrete, every shape), "
+        "the implication is any registered T-norm or none; every activated term must carry the variable's own term object and "
+        "the operator object it was triggered with, and denote x -> implication(degree, term(x))")
 ASSUMPTIONS = ["hedges are applied by the regenerated definitions Gen.Hedge.* (C05) at exact rationals, square roots through Fn.rat",
                "a batch is compared element by element with the scalar model"]
 LEVEL_TEXT = ("Lean theorems for consequents with any number of conclusions and hedges, generic in the degree type, hedge functions "
@@ -58,14 +62,84 @@ def hedge_names():
 
 def engine_for(case):
     en = case.get("outputs_enabled", {})
+    kinds = case.get("terms", {})      # family `kinds`: {output: [spec of t1, spec of t2]} (gen_engines term specs)
+
+    def terms(o):
+        if o in kinds:
+            return [GE.build_term(spec) for spec in kinds[o]]
+        return [fl.Triangle("t1", 0.0, 0.25, 0.5), fl.Triangle("t2", 0.5, 0.75, 1.0)]
     e = fl.Engine(
         "e",
         input_variables=[fl.InputVariable("a", minimum=0.0, maximum=1.0, terms=[fl.Ramp("x", 0.0, 1.0)])],
         output_variables=[fl.OutputVariable(o, minimum=0.0, maximum=1.0, enabled=en.get(o, True), aggregation=fl.Maximum(),
-                                            defuzzifier=fl.Centroid(10),
-                                            terms=[fl.Triangle("t1", 0.0, 0.25, 0.5), fl.Triangle("t2", 0.5, 0.75, 1.0)])
+                                            defuzzifier=fl.Centroid(10), terms=terms(o))
                           for o in OUTS])
+    for o in e.output_variables:
+        for t in o.terms:
+            if isinstance(t, fl.Linear):
+                t.engine = e
+            if isinstance(t, fl.Function):
+                t.engine = e
+                t.load()
     return e
+
+
+def impl_name(case):
+    """class name of the implication operator the rule is triggered with (`NoneType`: no operator)"""
+    return case["impl"] or "NoneType" if "impl" in case else "AlgebraicProduct"
+
+
+def impl_of(case):
+    n = impl_name(case)
+    return None if n == "NoneType" else getattr(fl, n)()
+
+
+XS = [0.0, 0.1, 0.3, 0.5, 0.75, 1.0, math.nan]
+
+
+def outcome(f):
+    try:
+        return np.asarray(f(), dtype=float)
+    except Exception as ex:  # noqa: BLE001
+        return type(ex).__name__
+
+
+def carried(e, impl, case):
+    """what every activated term CARRIES: the concluded term is the output variable's own term object, the operator is
+    the very object the rule was triggered with, and the contribution denotes x -> implication(degree, term(x)) - the
+    reference is computed from a fresh operator of that class and the variable's term, never through Activated"""
+    bad = []
+    for o in e.output_variables:
+        for k, t in enumerate(o.fuzzy.terms):
+            where = f"{o.name}.fuzzy.terms[{k}] ({t.term.name})"
+            own = next((u for u in o.terms if u.name == t.term.name), None)
+            if t.term is not own:
+                bad.append(f"{where}: the activated term does not hold the term object of the variable")
+            if t.implication is not impl:
+                bad.append(f"{where}: implication is {type(t.implication).__name__}, the rule was triggered with "
+                           f"{type(impl).__name__}")
+            if impl is None or own is None:
+                continue
+            ref_op = type(impl)()
+            # every sample point in the family `kinds`; one interior point for the two triangles of the other families
+            for x in (XS if "terms" in case else XS[2:3]):
+                mu = outcome(lambda: own.membership(x))
+                if not isinstance(mu, str) and mu.size > 1:
+                    break       # a Linear / Function term over a batch of input values: one value per row, not per x
+                got = outcome(lambda: t.membership(x))
+                want = mu if isinstance(mu, str) else outcome(lambda: ref_op.compute(np.asarray(t.degree, dtype=float).ravel(), mu))
+                if isinstance(got, str) or isinstance(want, str):
+                    same_ = isinstance(got, str) and isinstance(want, str)
+                else:
+                    # one value per degree of the batch
+                    same_ = got.size == want.size and all((a != a and b != b) or abs(a - b) <= 1e-12 * (1 + abs(b)) or a == b
+                                                           for a, b in zip(got.ravel().tolist(), want.ravel().tolist()))
+                if not same_:
+                    bad.append(f"{where}: membership({x}) = {got if isinstance(got, str) else got.tolist()}, "
+                               f"{type(impl).__name__}(degree, {type(own).__name__}({x})) = "
+                               f"{want if isinstance(want, str) else want.tolist()}")
+                    break
+    return bad
 
 
 def text_of(case):
@@ -83,7 +157,7 @@ def as_vec(d):
 def observe(case):
     """run the real code; returns {"triggered": [...], "outputs": {o: [(term, [degrees], implication class)]}} or {"raised": …}"""
     e = engine_for(case)
-    impl = fl.AlgebraicProduct()
+    impl = impl_of(case)
     with np.errstate(all="ignore"):
         try:
             rule = fl.Rule.create(text_of(case), e)
@@ -91,6 +165,8 @@ def observe(case):
             d = case["degree"]
             val = np.array(d, dtype=float) if isinstance(d, (list, tuple)) else float(d)
             if case["mode"] == "trigger":
+                if "input" in case:      # the value Linear / Function terms read
+                    e.input_variables[0].value = float(case["input"])
                 rule.activation_degree = val
                 rule.trigger(impl)
             else:
@@ -103,7 +179,7 @@ def observe(case):
                 outs[o.name] = [(t.term.name, [float(v) for v in np.atleast_1d(t.degree)], type(t.implication).__name__)
                                 for t in o.fuzzy.terms]
             return {"triggered": [bool(v) for v in np.atleast_1d(rule.triggered)], "outputs": outs,
-                    "degree": [float(v) for v in np.atleast_1d(rule.activation_degree)]}
+                    "degree": [float(v) for v in np.atleast_1d(rule.activation_degree)], "carried": carried(e, impl, case)}
         except Exception as ex:  # noqa: BLE001
             return {"raised": f"{type(ex).__name__}: {ex}"[:200]}
 
@@ -138,7 +214,7 @@ def expected(case, leak=False):
                 deg = np.asarray(f.construct(h).hedge(deg), dtype=float)
             if leak:
                 carried = deg
-            outs[c["var"]].append((c["term"], [sanitise(v) for v in np.atleast_1d(deg)], "AlgebraicProduct"))
+            outs[c["var"]].append((c["term"], [sanitise(v) for v in np.atleast_1d(deg)], impl_name(case)))
     return outs
 
 
@@ -170,6 +246,8 @@ def classify(case):
         trig = [bool(case.get("rule_enabled", True) and v > 0) for v in rule_degrees(case)]
         if bcast(ob["triggered"], len(trig)) != trig:
             return ob, "triggered-flag"
+        if ob["carried"]:
+            return ob, "carried"
         return ob, "ok"
     if same(ob["outputs"], expected(case, leak=True)):
         return ob, "hedge-leak"
@@ -182,6 +260,8 @@ def oracle(case):
         return True, "ok"
     if cl == "raised":
         return False, f"triggering the rule raised {ob['raised']}"
+    if cl == "carried":
+        return False, f"rule '{text_of(case)}' triggered with {impl_name(case)}, degree {rule_degrees(case)}: " + "; ".join(ob["carried"][:3])
     if cl == "triggered-flag":
         return False, f"Rule.triggered = {ob['triggered']} for degrees {rule_degrees(case)}, rule enabled = {case.get('rule_enabled', True)}"
     spec = expected(case)
@@ -194,7 +274,9 @@ def key(case):
     ob, cl = classify(case)
     if cl == "hedge-leak":
         return "F3:hedge-leak"
-    return f"{cl}:{text_of(case)}|{case['mode']}|{case.get('rule_enabled', True)}|{json.dumps(case.get('outputs_enabled', {}), sort_keys=True)}"
+    kinds = "|" + ",".join(f"{o}:{'/'.join(t['cls'] for t in ts)}" for o, ts in sorted(case["terms"].items())) + "|" + impl_name(case) \
+        if "terms" in case else ""
+    return f"{cl}:{text_of(case)}|{case['mode']}|{case.get('rule_enabled', True)}|{json.dumps(case.get('outputs_enabled', {}), sort_keys=True)}{kinds}"
 
 
 # ------------------------------------------------------------------------------------------ generation
@@ -245,6 +327,42 @@ def gen_cases(ctx):
             yield dict(base, conclusions=pc), "perm"
 
 
+def kind_cases(ctx):
+    """`exactly one activated term ... carrying the concluded term, the block's implication operator and the rule's
+    activation degree`: whatever KIND of term is concluded (the rule grammar names a term of the variable - a Constant,
+    Linear or Function term of a Takagi-Sugeno output as well as a Discrete term or any shape) and whatever operator
+    the block has (every registered T-norm; none).  Every registered term class is concluded at least twice (first
+    conclusion, alone or followed by others), then random mixes; hedges only on the last conclusion, so that the known
+    hedge leak F3 does not interfere; scalar and batch degrees, both paths (Rule.trigger / RuleBlock.activate)."""
+    rng = ctx.rng
+    HL = hedge_lists()
+    classes = sorted(GE.term_classes())
+    tnorms = GE.keys(fl.settings.factory_manager.tnorm)
+    for i in range(2 * len(classes) + ctx.scale(120, 1500)):
+        k = rng.choice([1, 1, 2, 3])
+        cs = [{"var": rng.choice(OUTS), "hedges": [], "term": rng.choice(TERMS)} for _ in range(k)]
+        cs[-1]["hedges"] = rng.choice(HL if rng.random() < 0.5 else [[]])
+        forced = classes[i % len(classes)] if i < 2 * len(classes) else None
+        terms = {}
+        for c in cs:
+            if c["var"] not in terms:
+                terms[c["var"]] = [GE.gen_term(rng, rng.choice(classes), t, 3, "grid", ["a"], True) for t in TERMS]
+        if forced:
+            terms[cs[0]["var"]][TERMS.index(cs[0]["term"])] = GE.gen_term(rng, forced, cs[0]["term"], 3, "grid", ["a"], True)
+        case = {"mode": rng.choice(["trigger", "trigger", "activate"]), "rule_enabled": rng.random() < 0.95,
+                "outputs_enabled": {o: rng.random() < 0.9 for o in OUTS}, "conclusions": cs, "terms": terms,
+                "impl": None if rng.random() < 0.08 else rng.choice(tnorms)}
+        if case["mode"] == "activate":
+            case["weight"] = rng.choice([None, None, 0.5, 1.0, 0.25])
+            pool = [0.0, 0.25, 0.5, 0.75, 1.0, math.nan]
+            case["degree"] = rng.choice(pool + [[rng.choice(pool) for _ in range(3)]])
+        else:
+            case["weight"] = rng.choice([None, 0.5])
+            case["degree"] = rng.choice(degrees(rng, 4))
+            case["input"] = rng.choice([0.0, 0.25, 0.5, 1.0, 0.3])
+        yield case, "kinds"
+
+
 def load_cases(ctx):
     """texts for Consequent.load: well-formed ones from the generator, plus malformed variants"""
     rng = ctx.rng
@@ -293,7 +411,7 @@ def corpus_cases():
 def model_lines(case, cmd="trigger"):
     en = case.get("outputs_enabled", {})
     cs = [[c["var"], int(en.get(c["var"], True)), list(c["hedges"]), c["term"]] for c in case["conclusions"]]
-    return [C.sx([cmd, int(case.get("rule_enabled", True)), d, "AlgebraicProduct", cs]) for d in rule_degrees(case)]
+    return [C.sx([cmd, int(case.get("rule_enabled", True)), d, impl_name(case), cs]) for d in rule_degrees(case)]
 
 
 def read_model(outs, s0, n):
@@ -336,6 +454,10 @@ def correspond(ctx):
     st = ctx.stats
     mism, leaks = [], []
     cases = [(c, "corpus") for c in corpus_cases()] + list(gen_cases(ctx))
+    # the random draws of the streams in their original order (trigger, load, histories), then the family `kinds`
+    ltoks = list(load_cases(ctx))
+    hist = list(history_cases(ctx))
+    cases += list(kind_cases(ctx))
     lines, spans = [], []
     for case, _ in cases:
         ls = model_lines(case)
@@ -344,7 +466,6 @@ def correspond(ctx):
     n_pinned = len(lines)
     for case, _ in cases:
         lines += model_lines(case, "trigger-repaired")
-    ltoks = list(load_cases(ctx))
     outs_decl = [[o, TERMS] for o in OUTS] + [["o4", []]]
     lines += [C.sx(["consequent-load", outs_decl, hedge_names(), t]) for t in ltoks]
     outs = ctx.driver.eval(lines)
@@ -357,7 +478,7 @@ def correspond(ctx):
             nt = any(d not in (0, 1) for o in OUTS for _, ds, _ in model[o] for d in ds)
             st.case(key_static(case), nt, sample={"rule": text_of(case), "degree": rule_degrees(case), "impl": ob.get("outputs"),
                                                  "model": {o: [(t, [str(d) for d in ds]) for t, ds, _ in model[o]] for o in OUTS}}
-                    if kind == "perm" else None)
+                    if kind in ("perm", "kinds") else None)
             st.validated += 1
             bad = diff_model(ob, mtrig, model)
             if bad:
@@ -383,7 +504,7 @@ def correspond(ctx):
         if len(mism) > 30:
             break
     # histories on one rule object (implementation against the specification)
-    for case in history_cases(ctx):
+    for case in hist:
         st.count("history-" + case["how"])
         ok, detail = history_oracle(case)
         st.case(key(case), True)
@@ -548,5 +669,9 @@ def search(ctx):
     for case in history_cases(ctx):
         ok, d = oracle(case)
         if not ok:
+            return [(case, d)]
+    for case, _ in kind_cases(ctx):
+        ok, d = oracle(case)
+        if not ok and key(case) != "F3:hedge-leak":
             return [(case, d)]
     return []
